@@ -173,6 +173,24 @@ def run(payload):
             fail("earlier_frames_read_on_the_grid_of_a_later_session", grid_of_frame_0=repr(back.grid), stored_on=repr(fa.grid), integral=float(back.integral), integral_stored=float(fa.integral))
     except (ValueError, RuntimeError):
         pass  # refusing the second session is fine
+    # storages built from fields: later changes of the source fields (or of frames read back) do not alter the frames
+    for collection in (False, True):
+        cases += 1
+        try:
+            def mk(v):
+                f = ScalarField(grid, v)
+                return FieldCollection([f, f.copy()]) if collection else f
+            src = [mk(1.0), mk(2.0)]
+            stf = MemoryStorage.from_fields([0.0, 1.0], src)
+            src[0].data[...] = 40.0
+            src[1] += 5
+            first = stf[0]
+            first.data[...] = -7.0
+            got = [float(np.mean(stf[i].data)) for i in range(2)]
+            if got != [1.0, 2.0]:
+                fail("from_fields_frames_follow_later_changes_of_the_source_fields", collection=collection, frames_read=got, stored=[1.0, 2.0])
+        except Exception as e:
+            fail("from_fields_error", collection=collection, error=f"{type(e).__name__}: {e}")
     # readonly
     st = MemoryStorage(write_mode="readonly")
     try:
